@@ -31,3 +31,19 @@ Print Assumptions C16_stage_bound_partial.
 Theorem C16_u32 : u32 = (/ 16777216)%R.
 Proof. exact u32_value. Qed.
 Print Assumptions C16_u32.
+
+(* a CASCADE of linear stages (row pass, column pass, level after level), each output of each stage a dot product of fixed
+   coefficients with the previous stage's COMPUTED outputs, evaluated in binary32 in any bracketing: the error of the whole
+   cascade is at most ((1+u)^(d_1+..+d_K) - 1) * (g_1*..*g_K) * max|x|, g_k bounding the absolute row sums of stage k and d_k its
+   summation depths.  PARTIAL with respect to the property: the product of the stage gains stands where the property has the gain
+   of the composite operator (it is never smaller), and the magnitude non-linearity of the scattering layers is not a stage. *)
+From PW Require Import Proofs.Cascade.
+Theorem C16_cascade_bound_float32_partial :
+  forall (choice : Z -> bool) (st : list stage) (x : nat -> R) (X : R),
+  Forall stage_ok st -> (0 <= X)%R -> (forall j, (Rabs (x j) <= X)%R) ->
+  forall i, (Rabs (run_fl (rnd32 choice) st x i - run_ex st x i) <= gam u32 (depths st) * (gains st * X))%R.
+Proof. exact cascade_bound_float32. Qed.
+Print Assumptions C16_cascade_bound_float32_partial.
+Theorem C16_cascade_nonvacuous : Forall stage_ok (haar_stage :: haar_stage :: nil).
+Proof. exact haar_stage_ok. Qed.
+Print Assumptions C16_cascade_nonvacuous.
